@@ -48,6 +48,8 @@ func main() {
 		cmdCheck(os.Args[2:])
 	case "frame":
 		cmdFrame(os.Args[2:])
+	case "sweep": // zero-annotation safety sweep: govc sweep <pkgpath-substring> [timeout]
+		cmdSweep(os.Args[2:])
 	case "ssa": // debugging aid: print the SSA form of a function as the generator sees it
 		p, err := loadProgram("/repo", verifDir())
 		if err != nil {
